@@ -208,6 +208,20 @@ func genRTx(c *kernel.RunCtx, extended bool, heavy *int) *models.RTx {
 	return t
 }
 
+// relatedVariant: the same outpoints at the same positions, every other field different (an earlier draft of the
+// same spend, with its previous outputs known).
+func relatedVariant(m *models.RTx) *models.RTx {
+	r := &models.RTx{Version: m.Version + 1, Lock: m.Lock ^ 0x55}
+	for i, in := range m.Ins {
+		r.Ins = append(r.Ins, models.RIn{TxIDWire: in.TxIDWire, Vout: in.Vout, Seq: in.Seq ^ 1, Script: []byte{0x51, byte(i)},
+			PrevSats: in.PrevSats + 7777, PrevScript: p2pkh(make([]byte, 20))})
+	}
+	for _, o := range m.Outs {
+		r.Outs = append(r.Outs, models.ROut{Sats: o.Sats + 1, Script: append([]byte{0x6a}, o.Script...)})
+	}
+	return r
+}
+
 func lenClass(n int) string {
 	switch {
 	case n == 0:
@@ -417,6 +431,26 @@ func (w *c01World) Run(c *kernel.RunCtx) {
 	for i := 0; i < ntx; i++ {
 		txs = append(txs, genRTx(c, extended, &heavy))
 	}
+	if ntx > 1 && c.Bool(1, 4) {
+		// a chain: later transactions spend outputs of earlier ones of the same stream (as in a block), with the
+		// index on, at and beyond the parent's last output
+		c.Begin("chain")
+		for k := 1; k < ntx; k++ {
+			if len(txs[k].Ins) == 0 {
+				continue
+			}
+			parent := txs[c.Choose(k)]
+			in := &txs[k].Ins[c.Choose(len(txs[k].Ins))]
+			disp := parent.TxIDDisplay()
+			for j := 0; j < 32; j++ {
+				in.TxIDWire[j] = disp[31-j]
+			}
+			no := len(parent.Outs)
+			in.Vout = []uint32{0, uint32(no) - 1, uint32(no), uint32(no) + 1, 0xffffffff}[c.Choose(5)]
+			c.Count("probe.spends_earlier_tx_of_same_stream", 1)
+		}
+		c.End()
+	}
 	var widen map[int]int
 	data, fields, ends := models.EncodeList(txs, extended, container == 2, nil)
 	vname := []string{"canonical", "nonminimal", "tail", "mutated"}[variant]
@@ -568,6 +602,10 @@ func (w *c01World) appendEdit(c *kernel.RunCtx, m *models.RTx, extended bool) {
 		}
 	}); pn != "" || err != nil || tx == nil {
 		return // judged by the decoding oracles
+	}
+	if d := cmpTx(tx, m, extended); d != "" {
+		c.Fail("fields", []string{"NewTxFromBytes", "Tx.ReadFrom", "Txs.ReadFrom"}[route], "a valid %s encoding (extended=%v) was decoded differently (route %d): %s", "transaction", extended, route, d)
+		return
 	}
 	mm := *m
 	mm.Ins = append([]models.RIn(nil), m.Ins...)
@@ -792,6 +830,20 @@ func (w *c01World) decodeStream(c *kernel.RunCtx, data []byte, txs []*models.RTx
 		if c01recv.used%2 == 1 {
 			list = &c01recv.list // re-used receiver: still holds the previous decode's result
 			c.Count("probe.receiver_reused", 1)
+			if len(data)%3 == 0 && len(data) > 4 {
+				// ... or the remains of a decode that failed halfway through this very stream
+				_ = catch(func() { _, _ = list.ReadFrom(kernel.NewStream(data[:len(data)*2/3], kernel.Plan{})) })
+				c.Count("probe.receiver_failed_halfway_first", 1)
+			} else if len(data)%3 == 1 && len(txs) > 0 {
+				// ... or an earlier version of the same transactions (same outpoints, everything else different)
+				var rel []*models.RTx
+				for _, m := range txs {
+					rel = append(rel, relatedVariant(m))
+				}
+				rb, _, _ := models.EncodeList(rel, true, true, nil)
+				_ = catch(func() { _, _ = list.ReadFrom(kernel.NewStream(rb, kernel.Plan{})) })
+				c.Count("probe.receiver_held_related_tx", 1)
+			}
 		}
 		c01recv.used++
 		var n int64
@@ -837,6 +889,14 @@ func (w *c01World) decodeStream(c *kernel.RunCtx, data []byte, txs []*models.RTx
 		if i == len(txs)-1 && c01recv.used%2 == 1 {
 			tx = c01recv.tx // re-used receiver
 			c.Count("probe.receiver_reused", 1)
+			if len(data)%3 == 0 && ends[i]-prev > 4 {
+				_ = catch(func() { _, _ = tx.ReadFrom(kernel.NewStream(data[prev:prev+(ends[i]-prev)*2/3], kernel.Plan{})) })
+				c.Count("probe.receiver_failed_halfway_first", 1)
+			} else if len(data)%3 == 1 {
+				rb, _ := relatedVariant(m).Encode(true, nil)
+				_ = catch(func() { _, _ = tx.ReadFrom(kernel.NewStream(rb, kernel.Plan{})) })
+				c.Count("probe.receiver_held_related_tx", 1)
+			}
 		}
 		c01recv.used++
 		decoded = append(decoded, tx)
@@ -1057,6 +1117,10 @@ func (w *c01World) apiBuilt(c *kernel.RunCtx, m *models.RTx, extended bool) {
 				c.Fail("api", "Tx.From", "From rejected a 64-digit txid and a hex script: %v", err)
 				return
 			}
+			if len(tx.Inputs) != i+1 {
+				c.Fail("api", "Tx.From", "From returned nil but the transaction has %d inputs, want %d", len(tx.Inputs), i+1)
+				return
+			}
 			in := tx.Inputs[len(tx.Inputs)-1]
 			in.SequenceNumber = mi.Seq
 			in.UnlockingScript = scriptPtr(mi.Script)
@@ -1067,6 +1131,10 @@ func (w *c01World) apiBuilt(c *kernel.RunCtx, m *models.RTx, extended bool) {
 			}
 			if err := tx.FromUTXOs(&bt.UTXO{TxID: id, Vout: mi.Vout, Satoshis: mi.PrevSats, LockingScript: ls}); err != nil {
 				c.Fail("api", "FromUTXOs", "FromUTXOs rejected a 32-byte txid: %v", err)
+				return
+			}
+			if len(tx.Inputs) != i+1 {
+				c.Fail("api", "FromUTXOs", "FromUTXOs returned nil but the transaction has %d inputs, want %d", len(tx.Inputs), i+1)
 				return
 			}
 			in := tx.Inputs[len(tx.Inputs)-1]
